@@ -1,10 +1,10 @@
 package c17
 
 import (
-	"encoding/hex"
 	"encoding/json"
 	"fmt"
 	"os"
+	"path/filepath"
 	"sort"
 	"strings"
 	"testing"
@@ -120,6 +120,11 @@ func (r *runner) account(c *core.Case, k kase, v verdict) {
 	if v.out == accepted {
 		if len(v.findings) == 0 && llvmFor(k.Arch) != nil && !v.usedLLVM {
 			r.pend[k.Arch] = append(r.pend[k.Arch], pending{k, v.code, v.want, v.opBytes})
+			if len(r.pend[k.Arch]) >= 60000 {
+				// bounded memory in the thorough tier; the bulk cross-check only
+				// feeds counters (x/arch already agreed), so it may run mid-loop
+				r.flushLLVM(nil)
+			}
 		}
 		if v.boundary {
 			c.Nontrivial(k.Arch, k.As, v.shape, classVector(k), boundaryBucket(k))
@@ -197,7 +202,7 @@ func boundaryBucket(k kase) string {
 // x/arch already agreed with the expected form for these cases, so an llvm-mc
 // disagreement is a conflict between the two references (counted, dropped).
 func (r *runner) flushLLVM(t *testing.T) {
-	if t.Failed() {
+	if t != nil && t.Failed() {
 		return
 	}
 	if llvmPath() == "" {
@@ -238,7 +243,7 @@ func (r *runner) flushLLVM(t *testing.T) {
 				case "rv32", "rv64":
 					ll, skip = rvLLVM(res[n], p.want.op)
 				case "x64":
-					ll = x64LLVMn(res[n], p.opBytes)
+					ll = x64ZeroExtMov(p.want, x64LLVMn(res[n], p.opBytes))
 				case "arm64":
 					ll = a64LLVM(res[n])
 				}
@@ -250,7 +255,7 @@ func (r *runner) flushLLVM(t *testing.T) {
 					r.s.Counter("llvm_agrees/"+arch, 1)
 				default:
 					r.s.Counter("ref_conflict/"+arch, 1)
-					if os.Getenv("VERIF_C17_VERBOSE") != "" {
+					if t != nil && os.Getenv("VERIF_C17_VERBOSE") != "" {
 						t.Logf("ref conflict %s %x: want %q llvm %q (%s)", arch, p.code, p.want.String(), ll.String(), ll.raw)
 					}
 				}
@@ -288,8 +293,13 @@ func (r *runner) coverage(t *testing.T, arch string, all []string) {
 			missing++
 		}
 	}
-	r.s.Counter("mnemonics_in_table/"+arch, int64(len(all)))
+	if core.FirstShard() {
+		r.s.Counter("mnemonics_in_table/"+arch, int64(len(all)))
+	}
 	r.s.Counter("mnemonics_not_attempted/"+arch, int64(missing))
+	if missing != 0 {
+		t.Errorf("harness: %d mnemonics of the %s table were never attempted", missing, arch)
+	}
 }
 
 // ---------------------------------------------------------------- generators
@@ -893,6 +903,7 @@ func TestX64Sweep(t *testing.T) {
 	defer r.finish(t)
 	names := x64Mnemonics()
 	sh, n := core.Shard()
+	thorough := core.Thorough()
 	regsOf := func(w int) []string {
 		switch w {
 		case 1:
@@ -965,6 +976,9 @@ func TestX64Sweep(t *testing.T) {
 				for sweep := range shape {
 					for _, cand := range axes[sweep] {
 						for variant := 0; variant < 3; variant++ {
+							if variant > 0 && w != 4 && w != 8 && !thorough {
+								break // 8/16-bit and xmm operands: one representative in the quick tier
+							}
 							k := kase{Arch: "x64", As: name}
 							for oi := range shape {
 								if oi == sweep {
@@ -1023,7 +1037,10 @@ func TestARM64Probe(t *testing.T) {
 	nAccepted := int64(0)
 	for _, name := range names {
 		for _, base := range []int{int(arm64.REG_W0), int(arm64.REG_X0), int(arm64.REG_S0), int(arm64.REG_D0)} {
-			for _, pat := range sweepRegPatterns {
+			for pi, pat := range sweepRegPatterns {
+				if pi > 1 && !core.Thorough() {
+					break
+				}
 				for fields := 0; fields < 16; fields++ {
 					for _, im := range []int32{0, 1, -1, 255, 256, 4095, 4096, -256} {
 						k := kase{Arch: "arm64", As: name, Imm: im}
@@ -1078,6 +1095,29 @@ func replay(test string, raw json.RawMessage) (string, string) {
 	return "", ""
 }
 
-func TestReplay(t *testing.T) { core.RunReplays(t, prop, replay) }
-
-var _ = hex.EncodeToString
+func TestReplay(t *testing.T) {
+	// one llvm-mc run per architecture for the whole corpus instead of one per file
+	if os.Getenv("VERIF_REPLAY") == "" && core.FirstShard() {
+		files, _ := filepath.Glob(filepath.Join(core.VerifDir(), "corpus", prop, "*.json"))
+		byArch := map[string][][]byte{}
+		for _, f := range files {
+			rf, err := core.LoadReplay(f)
+			if err != nil {
+				continue
+			}
+			var k kase
+			if json.Unmarshal(rf.Case, &k) != nil {
+				continue
+			}
+			if v := check(k, llvmNever); v.code != nil {
+				byArch[k.Arch] = append(byArch[k.Arch], v.code)
+			}
+		}
+		for arch, codes := range byArch {
+			if tg := llvmFor(arch); tg != nil {
+				tg.prefetch(codes)
+			}
+		}
+	}
+	core.RunReplays(t, prop, replay)
+}
